@@ -111,8 +111,8 @@ Clauses(ln, pv, first, xs) ==
           /\ ln.model.L = ln.L
           /\ (ln.model.exactrec => <<ln.model.rec[1], ln.model.rec[2]>> = rec)
           /\ \A k \in 1..ln.L : (ln.model.isoL[k] => ln.isoL[k]) /\ (ln.model.isoR[k] => ln.isoR[k])>>,
-     <<"NOTE:ModelDrift.Claims", Has(ln, "model") =>
-          (ln.model.L = ln.L /\ \A k \in 1..ln.L : ln.model.flag[k] = ln.flags[k].kind)>> >>
+     <<"NOTE:ModelDrift.Claims", (Has(ln, "model") /\ ln.model.exactrec) =>
+          (ln.model.L = ln.L /\ \A k \in 1..ln.L : ln.model.flag[k] # "N" => ln.model.flag[k] = ln.flags[k].kind)>> >>
 
 TInit == l = 1 /\ fails = <<>> /\ prev = [tid |-> -1] /\ x = NoX
 TNext == /\ l <= NLines
